@@ -169,6 +169,19 @@ def analyse_paths(prog, fnkey, mods, sess=(), flag_fn=None):
                 d = b.expr_operand(t["discr"], 0, env)
                 allv = tuple(v for v, _ in t["targets"])
                 bv = bool_of((d, vals, allv, t["discr_ty"]))
+                # a flag whose value is a constant on this path (`let removed = a() || b();` took the short-circuit arm): the other edge is not taken
+                d_c = strip_refs(d)
+                neg_c = False
+                while d_c.k == "un" and d_c.a[0] == "Not":
+                    d_c = strip_refs(d_c.a[1])
+                    neg_c = not neg_c
+                if t["discr_ty"] == "bool" and is_const(d_c, "bool"):
+                    want_c = bool(const_val(d_c)) != neg_c
+                    took_c = (vals != (0,)) if vals != "otherwise" else (0 in allv)
+                    if took_c != want_c:
+                        infeasible = True
+                        break
+                    continue
                 et = _empty_test(d)
                 fl = _flag_test(d, flag_fn)
                 ln = _len_switch(d)
